@@ -70,7 +70,7 @@ Qed.
 
 (* refresh of one side followed by the new refresh stamp *)
 Lemma refresh_side_pres evl g w e sd en mx w1 :
-  InvP evl g w -> (2 <= e)%nat -> nth_error (ents (w_st w)) e = Some en -> mx <= now (w_st w) ->
+  InvP evl g w -> (2 <= e)%nat -> nth_error (ents (w_st w)) e = Some en -> mx <= now (w_st w) + 1 ->
   uget_latest w e sd = ROk w1 ->
   let w2 := setx w1 e sd (set_lg mx) in
   InvP evl g w2 /\ ReadyS evl w2 e sd /\
@@ -97,7 +97,7 @@ Proof.
   { unfold w2. rewrite getx_setx_same. f_equal. apply (weff_getx _ _ _ _ _ e sd W1). }
   pose proof (i_ents _ _ _ I e en He Hn) as EO.
   destruct (i_clke _ _ _ I e en Hn) as (Hmaxo & Hlgo).
-  assert (Hmax': maxchg en' <= now (w_st w')).
+  assert (Hmax': maxchg en' <= now (w_st w') + 1).
   { unfold maxchg, chgv in *. destruct Pchg as [(G & _)|(t & G & _ & _ & Ht & _)].
     - destruct sd; simpl in *; rewrite Pother, G; lia.
     - destruct sd; simpl in *; rewrite Pother, G; simpl; lia. }
@@ -165,7 +165,7 @@ Qed.
 
 (* ------------------------------------------------------------------ get_latest *)
 Lemma get_latest_loop_pres evl g e force mx : forall sides w w',
-  InvP evl g w -> (2 <= e)%nat -> (exists en, nth_error (ents (w_st w)) e = Some en) -> mx <= now (w_st w) ->
+  InvP evl g w -> (2 <= e)%nat -> (exists en, nth_error (ents (w_st w)) e = Some en) -> mx <= now (w_st w) + 1 ->
   get_latest_loop w e force mx sides = ROk w' ->
   InvP evl g w' /\ (forall sd0, prov_of w' sd0 = prov_of w sd0) /\
   (forall x sd0, x <> e -> getx w' x sd0 = getx w x sd0) /\ now (w_st w) <= now (w_st w') /\
@@ -193,7 +193,7 @@ Proof.
   intros I He H. unfold get_latest, get_e, lift, get_ent in H.
   destruct (nth_error (ents (w_st w)) e) as [en|] eqn:Hn; [|discriminate]. cbn [rbind] in H.
   set (mx := fold_right _ 0 sides) in H.
-  assert (Hmx: mx <= now (w_st w)).
+  assert (Hmx: mx <= now (w_st w) + 1).
   { destruct (i_clke _ _ _ I e en Hn) as (Hm & _). unfold mx. clear H mx. unfold maxchg, chgv in Hm.
     induction sides as [|sd r IHs]; simpl; [lia|]. destruct sd; simpl; lia. }
   destruct (get_latest_loop_pres evl g e force mx sides w w' I He (ex_intro _ en Hn) Hmx H) as (A & B & C & D & _). auto.
